@@ -121,9 +121,16 @@ def run_pairs(case):
   outs = []
 
   def bad(clause, what, xspec):
+    # one record per signature and case; `insts` names EVERY failing operand pair, so that a recorded finding is identified
+    # by its exact set of pairs and the same signature on any other pair is still reported
     key = "%s:%sx%s" % (clause, wk, qtypes.kind_of(qtypes.make_type(tuple(xspec))))
-    if len(viol) < 10 and not any(v["key"] == key for v in viol):
-      viol.append({"key": key, "what": what, "detail": {"w": list(wspec), "x": list(xspec)}})
+    inst = "%s*%s" % ("/".join(map(str, wspec)), "/".join(map(str, xspec)))
+    for v in viol:
+      if v["key"] == key:
+        v["insts"].append(inst)
+        return
+    viol.append({"key": key, "what": what, "detail": {"w": list(wspec), "x": list(xspec)}, "insts": [inst]})
+  built = []
 
   for xspec in qtypes.operand_specs():
     xT = qtypes.make_type(xspec)
@@ -133,6 +140,7 @@ def run_pairs(case):
     out = m.output
     od = qtypes.den(out)
     outs.append((m.implemented_as(), repr(od)))
+    built.append((xspec, m, repr(od)))
     want_impl = IMPL[wk][KINDS.index(xk)]
     evals += 1
     if m.implemented_as() != want_impl:
@@ -177,6 +185,14 @@ def run_pairs(case):
       bad("zero", "%r x %r -> %r cannot represent zero" % (wspec, xspec, od), xspec)
     if qtypes.size(od) > max(qtypes.size(wd), qtypes.size(xd)) or od.kind != wd.kind:
       nontriv += 1
+  # history clause: all multipliers above came from ONE factory; building a later one must not have changed the type an
+  # earlier one reports (each multiplier owns its output type)
+  for xspec, m, snap in built:
+    evals += 1
+    now = repr(qtypes.den(m.output))
+    if now != snap:
+      bad("multiplier-type-changed-later", "%r x %r: the multiplier reported %s when it was built and reports %s after other "
+          "multipliers were built by the same factory" % (wspec, xspec, snap, now), xspec)
   return {"evals": evals, "transitions": len(outs), "nontrivial": nontriv, "state": "pairs:%r" % (wspec,),
           "digest": common.digest(outs), "violations": viol, "traces": 0,
           "sample": {"sub": "pairs", "weight_type": list(wspec), "weight_model": repr(wd),
